@@ -16,7 +16,8 @@ def getOpcodeOffset (s : Instr) : Nat :=
   let index := s.opd0.index &&& c_MODE_MASK
   let base2 := s.opd1.reg &&& c_MODE_MASK
   let index2 := s.opd1.index &&& c_MODE_MASK
-  if inR base c_reg16 c_ext64 || inR base2 c_reg16 c_ext64 then 1
+  if s.memDisp then 1
+  else if inR base c_reg16 c_ext64 || inR base2 c_reg16 c_ext64 then 1
   else if inR index c_reg16 c_ext64 || inR index2 c_reg16 c_ext64 then 1
   else 0
 
